@@ -136,6 +136,15 @@ pub fn monotone_check(history: &History, p: Option<usize>, upto: Option<usize>, 
     Ok(())
 }
 
+/// (queue, position) -> payloads the implementation reported as appended there, with the appending call's index.
+pub fn really_appended_index(appended: &[(String, u64, Bytes, usize)]) -> BTreeMap<(String, u64), Vec<(usize, Bytes)>> {
+    let mut index: BTreeMap<(String, u64), Vec<(usize, Bytes)>> = BTreeMap::new();
+    for (name, pos, bytes, op) in appended {
+        index.entry((name.clone(), *pos)).or_default().push((*op, bytes.clone()));
+    }
+    index
+}
+
 pub fn appended_index(appended: &[(String, u64, Bytes)], cops: &[COp], outcomes: &[Outcome]) -> BTreeMap<(String, u64), Vec<(usize, Bytes)>> {
     // `appended` is in op order; recover the op index by walking the successful appends
     let mut index: BTreeMap<(String, u64), Vec<(usize, Bytes)>> = BTreeMap::new();
@@ -217,21 +226,21 @@ impl Property for C03 {
     fn run(&self, case: &Case, env: &mut Env) -> Result<(), CaseError> {
         let dir = env.scratch.fresh("c03");
         let mut exec = Exec::new(&dir, case.policy)?;
-        exec.keep_snapshots = true;
-        exec.keep_appended = true;
+        // model-free: states and outcomes are those the REAL log showed
+        exec.keep_live = true;
         let mut outcomes: Vec<Outcome> = Vec::new();
         for sop in &case.ops {
             let step = exec.step(sop)?;
-            exec.check_outcome(&step)?;
-            outcomes.push(step.expected.clone());
+            exec.usable_or_skip(&step)?;
+            outcomes.push(step.real.outcome.clone());
         }
         exec.driver.close()?;
         exec.selfcheck_image(&Image::default())?;
         let effects: Vec<Effect> = exec.effects().to_vec();
         let frames = exec.driver.tracer.frames.clone();
         let (persist_process, persist_power) = persistence_points(&exec.cops, &outcomes, case.policy);
-        let appended = appended_index(&exec.appended, &exec.cops, &outcomes);
-        let history = History { cops: &exec.cops, snapshots: &exec.snapshots, appended: &appended };
+        let appended = really_appended_index(&exec.really_appended);
+        let history = History { cops: &exec.cops, snapshots: &exec.live, appended: &appended };
         let history_hash = hash64(&(case.policy, &exec.cops));
         let crash_dir = env.scratch.fresh("c03-crash");
         // index of the OpEnd effect of each op (to know which unlinks happened after P)
